@@ -1356,6 +1356,10 @@ func (ctx *RenderContext) getItem(container, index interface{}) (interface{}, er
 				}
 			}
 
+			if !mapKey.Comparable() {
+				return nil, nil // An unhashable index (list, map, func) matches no key
+			}
+
 			mapValue := v.MapIndex(mapKey)
 			if mapValue.IsValid() {
 				return mapValue.Interface(), nil
